@@ -78,8 +78,9 @@ def run(tier):
     v.cov['evaluations'] += res1.checked
     v.cov['samples'].append(dict(kind='E1 case from TLC (RegpReqMC.tla): rx call | allowed observations', events=cases[1000:1002]))
     v.notes['e0_e1'] = dict(model='RegpReqMC.tla', cases=len(cases), invariant='C06Holds')
-    rnd = random.Random(vf.seed())
-    ss = list(scripts(rnd, quick))
+    ss = []
+    for rnd in vf.rounds(tier, 3):
+        ss += list(scripts(rnd, quick))
     vf.trace_flow(v, 'RegpTrace.tla', 'RegpTrace.cfg', 'regp', ss, 'req')
     v.cov['distinct_nontrivial'] += len(set(l for s in ss for l in s))
     v.cov['rule'] = ('read/write x 8/16-bit requests x 2 transports x 2 memory word sizes x boundary addresses x block sizes x 12 backend verdicts, plus responses/meta as input; '
